@@ -15,6 +15,8 @@ for name in sorted(idx):
     else:
         prop = name[:3]
     e = idx[name]
+    if e.get("void"):
+        det = e["void"]  # the change no longer breaks the property on the current tree (e.g. after a fix)
     rows.append("| `%s` | %s | %s | %s | %s | %s |" % (name, prop, e["change"].replace("|", "\\|"), e["needs"].replace("|", "\\|"), det, e["first"].replace("|", "\\|")))
 table = "\n".join(rows)
 p = os.path.join(ROOT, "DESIGN.md")
